@@ -118,7 +118,7 @@ pub fn run(ctx: &Ctx, out: &mut CaseOut) {
                     let mut slg_s = chalk_engine::solve::SLGSolver::<I>::new(10, None);
                     let mut other = choice.into_solver();
                     let o = if is_slg { solve(&mut slg_s, &db, &p.goal) } else { solve(&mut *other, &db, &p.goal) };
-                    let stale = is_slg && crate::common::slg_stale_table(&mut slg_s);
+                    let stale = is_slg && crate::common::slg_stale_table(&mut slg_s, &p.goal);
                     out.evals += 1;
                     if let Outcome::Answer(a) = o {
                         let d = disp(&a);
